@@ -40,6 +40,9 @@ pub struct Case {
     pub unparsable: bool,
     /// the project directory itself lies below a directory called `target`
     pub under_target_dir: bool,
+    /// index (into `files`) of a source file that is a symbolic link to a file outside the project
+    #[serde(default)]
+    pub symlinked: Option<usize>,
     pub zod: bool,
 }
 
@@ -60,6 +63,12 @@ impl Case {
             }
             files.push((POSITIONS[*pos].to_string(), s));
         }
+        let mut links = vec![];
+        if let Some(k) = self.symlinked {
+            if k < files.len() {
+                links.push(files.remove(k));
+            }
+        }
         let cmd = "#[tauri::command]\npub fn decoy_command() -> i32 { 0 }\n";
         if self.decoy_target {
             files.push(("target/debug/build/gen.rs".into(), cmd.into()));
@@ -75,7 +84,7 @@ impl Case {
         if self.unparsable {
             files.push(("src/broken.rs".into(), "#[tauri::command]\npub fn broken_command( -> i32 { 0 \n".into()));
         }
-        (Project { files }, expected)
+        (Project { files, links }, expected)
     }
 }
 
@@ -194,6 +203,7 @@ fn mk(case: &Case, class: &str, detail: String) -> Violation {
         .field("items", items.iter().map(|i| i.to_string()).collect::<Vec<_>>().join(","))
         .field("n_files", case.files.len().to_string())
         .field("under_target_dir", case.under_target_dir.to_string())
+        .field("symlinked", case.symlinked.is_some().to_string())
         .field("mode", if case.zod { "zod" } else { "none" })
         .rank((case.files.len() * 100 + items.len() * 10 + case.unparsable as usize) as u64)
 }
@@ -286,13 +296,15 @@ pub fn run(tier: Tier) -> CheckResult {
                 decoy_txt: c & 4 != 0,
                 unparsable: c & 8 != 0,
                 under_target_dir: false,
+                // every third layout has one of its files symlinked in from outside the project
+                symlinked: if i % 3 == 2 { Some(i % l.len()) } else { None },
                 zod: i % 2 == 1,
             });
         }
     }
     // the project itself below a directory named target
     for l in layouts.iter().filter(|l| l.len() == 1 && l[0].1.len() == 1).take(8) {
-        cases.push(Case { files: l.clone(), decoy_target: false, decoy_git: false, decoy_txt: false, unparsable: false, under_target_dir: true, zod: false });
+        cases.push(Case { files: l.clone(), decoy_target: false, decoy_git: false, decoy_txt: false, unparsable: false, under_target_dir: true, symlinked: None, zod: false });
     }
     let results: Vec<Option<(Vec<Violation>, bool, Option<String>)>> = cases.par_iter().map(|c| if deadline.passed() { None } else { Some(eval(c)) }).collect();
     let mut evaluations = 0u64;
@@ -319,7 +331,7 @@ pub fn run(tier: Tier) -> CheckResult {
     all_v.sort_by_key(|v| v.rank);
     let mut seen = BTreeSet::new();
     for v in all_v {
-        let k = format!("{}|{}|{}", v.class, v.fields["items"], v.fields["under_target_dir"]);
+        let k = format!("{}|{}|{}|{}", v.class, v.fields["items"], v.fields["under_target_dir"], v.fields["symlinked"]);
         if seen.insert(k) {
             let mut v = v;
             v.fields.remove("n_files");
